@@ -535,6 +535,28 @@ interface I {}
 ]
 
 
+LINT_RICH_PROGRAMS.append(
+    # the same scoped names claimed by several kinds of element (redefinitions): a lint recorded for one of them is looked up by
+    # that name and may find another - one whose container was discarded by a later syntax error
+    """module M
+enum E { A( /// {@link}
+ f: int32, /// @unknown u
+ g: bool ), /// {@link
+ B }
+interface E { /// {@link}
+ A(f: int32, g: bool) -> (f: bool, h: string) /// @unknown v
+ B() }
+struct E { /// {@link}
+ A: bool, /// {@link
+ B: Sequence<E> }
+interface I { /// {@link}
+ op(/// nope
+ p: bool) }
+enum I { op( /// {@link}
+ p: bool ) }
+""")
+
+
 def truncation_programs():
     """Every prefix of the lint-rich programs cut at a token boundary, bare and followed by a stray token, so that a syntax
     error follows each element at the moment it has just been built (its children built, its container not yet)."""
